@@ -98,6 +98,8 @@ def _ops(draw, blk, minlen=1, maxlen=14, with_reset=True):
 def _block_case(draw):
     blk = draw(_block())
     ops = draw(_ops(blk))
+    if blk['shape'] == 'seq' and draw(st.integers(0, 5)) == 0:
+        ops.insert(draw(st.integers(0, len(ops))), ['clone-and-write'])
     if blk['shape'] == 'seq' and not blk.get('scalar') and draw(st.integers(0, 3)) == 0:
         # the application keeps using the list it handed to the constructor (a block owns its cells)
         ops.insert(draw(st.integers(0, len(ops))), ['caller-mutates-its-list'])
@@ -266,6 +268,16 @@ def _run_block(case):
         else:
             for op in case['ops']:
                 labels.append('op:' + op[0])
+                if op[0] == 'clone-and-write':
+                    # a second block built from the cells of this one (`values` of the first): writing to the copy must not show here
+                    from pymodbus.datastore.store import ModbusSequentialDataBlock
+                    other = ModbusSequentialDataBlock(b['start'], block.values)
+                    other.setValues(b['start'], [(not block.values[0]) if b['bits'] else (block.values[0] ^ 0x0F0F)])
+                    other.reset()
+                    if _dump(block) != model:
+                        discs.append(Disc('state', 'writing to / resetting a block built from the values of this block changed this block: %r' % sorted(_dump(block).items())[:6]))
+                        break
+                    continue
                 if op[0] == 'caller-mutates-its-list':
                     for i_ in range(len(mine)):
                         mine[i_] = (not mine[i_]) if b['bits'] else (mine[i_] ^ 0x5A5A)
